@@ -82,6 +82,12 @@ def gen_atom(rng):
         return ("str", rng.choice(["", "x", "a b", "it s", "AND", "1..2", "T", ":x", "(", "é"]))
     if r < 0.85:
         return ("bind", rng.choice(["x", "_b", "in_", "NOT1"]))
+    if rng.random() < 0.4:
+        # fractional seconds of every length up to a nanosecond, in the spellings that carry them
+        frac = "".join(rng.choice("0123456789") for _ in range(rng.randint(1, 9)))
+        sep = rng.choice([" ", "T"])
+        return ("time", rng.choice(["", "iso/" if sep == " " else "isot/"]) + f"20{rng.randint(10, 29)}-0{rng.randint(1, 9)}-{rng.randint(10, 28)}{sep}"
+                f"{rng.randint(10, 23)}:{rng.randint(10, 59)}:{rng.randint(10, 59)}.{frac}" + rng.choice(["", "/tai", "/utc", "/tt"]))
     return ("time", rng.choice(["2020-01-01", "2020-01-01T12:34:56.5", "mjd/58000.5", "2020-01-01 00:00:00/tai", "jd/2458000.5/tt",
                                  "2020:100:12:00:00", "58000.25", "iso/2021-03-04 05:06:07.891/utc"]))
 
@@ -536,6 +542,77 @@ def error_discipline(ctx, tmp, viol):
             if got != exp:
                 viol(f"where={w!r} selects detectors {sorted(got)}, the documented meaning of the range literal gives {sorted(exp)}",
                      f"range-semantics:{lit}:{neg}", {"kind": "where", "where": w, "got": sorted(got), "want": sorted(exp)})
+    # documented values of numeric literals, observed through the query API: integers, and floats in decimal and exponent notation
+    # (either case of the exponent letter, signed exponents, leading or trailing dot)
+    rng = ctx.rng
+    b.registry.insertDimensionData("day_obs", {"instrument": "I", "id": 20200101})
+    b.registry.insertDimensionData("visit", *[{"instrument": "I", "id": k, "name": f"v{k}", "physical_filter": "f", "day_obs": 20200101, "exposure_time": float(k)}
+                                              for k in range(1, 13)])
+    for v in [3, 7, 10, 12, 2.5, 0.5, 11.5, 100, 0.002, 6.25]:
+        spell = {repr(v), f"{v:.1f}", f"{v:e}", f"{v:E}", f"{v:.3e}".replace("e+0", "e").replace("e-0", "e-"), f"{v:.2E}".replace("E+0", "E+").replace("E-0", "E-"),
+                 f"{v * 10:g}e-1", f"{v * 10:g}E-1", f"{v / 10:g}e1", f"{v / 10:g}E1", f"{v / 10:g}e+1", f"{v / 10:g}E+1"}
+        if float(v).is_integer():
+            spell |= {f"{int(v)}", f"{int(v)}.", f"{int(v)}.0", f"{int(v)}e0", f"{int(v)}E0", f"0{int(v)}"}
+        if 0 < v < 1:
+            spell |= {repr(v)[1:], f"{repr(v)[1:]}e0", f"{repr(v)[1:]}E0"}
+        for lit in sorted(spell):
+            try:
+                val = float(lit)
+            except ValueError:
+                continue
+            if abs(val - v) > 1e-12:
+                continue
+            # an integer literal is compared with an integer column, a float literal with a float column (visit k was exposed for k seconds)
+            is_int = lit.isdigit()
+            col, dim = ("detector", "detector") if is_int else ("visit.exposure_time", "visit")
+            for op, fn in (("<", lambda d, x: d < x), (">=", lambda d, x: d >= x), ("=", lambda d, x: d == x)):
+                w = f"{col} {op} {lit}"
+                ctx.evaluations += 1
+                ctx.count("numeric-literal-semantics:" + ("int" if is_int else "float"))
+                want = {d for d in range(1, 13) if fn(d, v)}
+                try:
+                    got = {d[dim] for d in b.query_data_ids([dim], where=w, instrument="I", explain=False)}
+                except Exception as e:
+                    got = f"{type(e).__name__}: {str(e)[:60]}"
+                if got != want:
+                    viol(f"where={w!r} selects {sorted(got) if isinstance(got, set) else got}; the literal is the number {v}, which gives {sorted(want)}",
+                         f"numeric-semantics:{lit}:{op}", {"kind": "where", "where": w})
+    # documented meaning of IN / NOT IN over lists of scalars, ranges and bound values of every length
+    for _ in range(120 if ctx.quick() else 3000):
+        items, members, bind = [], set(), {}
+        for j in range(rng.randint(1, 4)):
+            r = rng.random()
+            if r < 0.4:
+                x = rng.randint(0, 13)
+                items.append(str(x)), members.add(x)
+            elif r < 0.6:
+                a = rng.randint(0, 12)
+                z, st = rng.randint(a, 14), rng.choice([None, 1, 2, 3])  # an empty (descending) range is refused, see `bad` below
+                items.append(f"{a}..{z}" + (f":{st}" if st else ""))
+                members |= {x for x in range(a, z + 1) if (x - a) % (st or 1) == 0}
+            elif r < 0.8:
+                x = rng.randint(0, 13)
+                bind[f"b{j}"] = x
+                items.append(f":b{j}"), members.add(x)
+            else:
+                xs = [rng.randint(0, 13) for _ in range(rng.randint(1, 3))]
+                bind[f"b{j}"] = rng.choice([list, tuple, set])(xs)
+                items.append(f":b{j}"), members.update(xs)
+        neg = rng.random() < 0.5
+        form = rng.choice(["plain", "plain", "not-outside"]) if neg else "plain"
+        w = f"detector {'NOT ' if neg and form == 'plain' else ''}IN ({', '.join(items)})"
+        if form == "not-outside":
+            w = f"NOT ({w})"
+        want = {d for d in range(1, 13) if (d in members) != neg}
+        ctx.evaluations += 1
+        ctx.count(f"in-list-semantics:{len(items)}:{'neg' if neg else 'pos'}")
+        try:
+            got = {d["detector"] for d in b.query_data_ids(["detector"], where=w, bind=bind or None, instrument="I", explain=False)}
+        except Exception as e:
+            got = f"{type(e).__name__}: {str(e)[:60]}"
+        if got != want:
+            viol(f"where={w!r} bind={bind} selects {sorted(got) if isinstance(got, set) else got}, the documented meaning gives {sorted(want)}",
+                 f"in-semantics:{w}:{sorted(bind.items(), key=str)}", {"kind": "where", "where": w, "bind": {k: list(v) if not isinstance(v, int) else v for k, v in bind.items()}})
     # a bind name that is not bound is an error even when it happens to be spelled like an identifier
     for w in ["detector = :detector", "detector IN (:detector)", "instrument = :instrument", "detector = :full_name", "detector != :null"]:
         ctx.evaluations += 1
@@ -553,7 +630,9 @@ def error_discipline(ctx, tmp, viol):
         "f(detector) = 1", "POINT(1) = 1", "POINT(1,2) = 1", "detector = 99999999999999999999", "detector = 1e400", "nosuchthing = 1",
         "detector.nosuchfield = 1", "detector = 'a' + 1", "detector = T'2020-01-01'", "detector < 'a'", "detector AND instrument", "detector = :unbound",
         "detector IN (:unbound)", "T'garbage' = detector", "detector = 1 AND", "detector OVERLAPS 1", "instrument = 1", "-'a' = detector",
-        "detector = (1, 2)", "visit.timespan OVERLAPS (1, 2)", "detector IN (1..2:0)", "detector % 'a' = 1", "detector IN (1, 'a')",
+        "visit.region OVERLAPS POINT(10, 100)", "visit.region OVERLAPS POINT(1, -91)", "visit.region OVERLAPS POINT(1)", "visit.region OVERLAPS POINT('a', 2)",
+        "visit.region OVERLAPS POINT(1, 2, 3)", "visit.region OVERLAPS POINT(detector, 2)",
+        "detector = (1, 2)", "visit.timespan OVERLAPS (1, 2)", "detector IN (1..2:0)", "detector IN (5..2)", "detector % 'a' = 1", "detector IN (1, 'a')",
     ]
     for w in bad:
         ctx.evaluations += 1
